@@ -24,25 +24,6 @@ private def parseCfg (ns ess bts fl : String) : Except String Cfg := do
   if !c.valid then throw "invalid configuration"
   return c
 
-private def absR (x : Rat) : Rat := if x < 0 then -x else x
-
-/-- the operator reached `convert` with a finite non-zero triple -/
-private def finiteNZ (c : Cfg) (a : Nat) : Bool := !isNan c a && !isInf c a && !isZero c a
-
-/-- X lies in the binade of the all-ones exponent and its (unbounded-exponent) RNE lands on the value the inf
-    encoding would have as a supernormal, or carries out of that binade (the code then writes INF_ENCODING). -/
-private def roundsToInfPattern (c : Cfg) (X : Rat) : Bool :=
-  let u := ulpAt c X
-  let top : Int := (c.emax : Int) - c.bias
-  let R := (rne (X / u) : Rat) * u
-  floorLog2 X == top &&
-    (R == (2 - 2 / ((2 ^ c.fbits : Nat) : Rat)) * pow2 top || R == pow2 (top + 1))
-
-private def exactlyRepresentable (c : Cfg) (X : Rat) : Bool :=
-  match roundMag c X with
-  | some m => m == X
-  | none => false
-
 /-- RNE of X carries into the next binade (the integer `round<>` then halves the carry instead of clearing it) -/
 private def roundCarries (c : Cfg) (X : Rat) : Bool :=
   let u := ulpAt c X
@@ -57,20 +38,6 @@ private def intClass (c : Cfg) (X : Rat) : String :=
   else if roundCarries c X then "cfloat.from_int.round_carry"
   else if q - (q.floor : Rat) == 5 / 8 then "cfloat.from_int.sticky_gap"
   else ""
-
-private def opOf (op : String) : Op := match op with | "mul" => .mul | "div" => .div | _ => .add
-
-/-- known-defect class of an arithmetic line (inputs only) -/
-def arithClass (c : Cfg) (op : String) (a b : Nat) (e : Expect) : String :=
-  match e with
-  | .real x =>
-    if !(finiteNZ c a && finiteNZ c b) then "" else
-    let X := absR x
-    if (opOf op).bfbits c.fbits ≥ 65 && !exactlyRepresentable c X then "cfloat.convert.wide_path"
-    else if c.sat && !c.sup && roundsToInfPattern c X then "cfloat.convert.sat_nosup_cusp"
-    else if c.sat && c.sup && overflows c X then "cfloat.sat_sup.maxpos_is_inf"
-    else ""
-  | _ => ""
 
 private def roundTag (c : Cfg) (x : Rat) : String :=
   let X := absR x
@@ -203,8 +170,7 @@ def cfloatHandler : Handler := fun lhs rhs => do
                  tag := "cmp/" ++ (if (cfVal c a).isNan || (cfVal c b).isNan then "nan" else if s % 2 == 1 then "eq" else if s &&& 4 != 0 then "lt" else "gt"),
                  trivial := (cfVal c a).isNan || (cfVal c b).isNan }
       if !(["add", "sub", "mul", "div"].contains op) then throw s!"unknown op {op}"
-      let m := match op with
-        | "add" => add c a b | "sub" => Cfloat.sub c a b | "mul" => mul c a b | _ => div c a b
+      let m := arithOp op c a b
       let e := expectOp op (cfVal c a) (cfVal c b)
       let ok1 := satisfies c e r
       let (ok2, why2) ← match hwt with
